@@ -197,10 +197,12 @@ def historical_job(seed):
     cur = pd.DataFrame([{"postal_code": b["postal_code"], "geographic_unit_fips": b["geographic_unit_fips"], "percent_expected_vote": rng.choice([0, 40, 89, 90, 100])} for b in base])
     # the order (and the row labels) of the live feed are the caller's business: shuffled, labels kept, for every other seed
     pev_by = dict(zip(cur["geographic_unit_fips"], cur["percent_expected_vote"]))
-    if seed % 2 == 1:
-        cur = cur.sample(frac=1.0, random_state=seed % 1000)
+    if seed % 4 == 1:
+        cur = cur.sample(frac=1.0, random_state=seed % 1000).reset_index(drop=True)       # shuffled, fresh labels (as the command line tool does)
+    elif seed % 4 == 3:
+        cur = cur.sample(frac=1.0, random_state=seed % 1000)                              # shuffled, labels kept
     elif seed % 4 == 2:
-        cur = cur.sort_values("percent_expected_vote", ascending=False)
+        cur = cur.sort_values("percent_expected_vote", ascending=False).reset_index(drop=True)
     hid = "2095-11-03_USA_G"
     wd = os.path.join(core.BUILD, "c10hist", str(seed))
     shutil.rmtree(wd, ignore_errors=True)
